@@ -34,6 +34,7 @@ def run_pair(case, ctx=None):
         points, images = cr.snapshot_run(prep, cr.MUTATING_KINDS, 'powerloss')
         desc = prep.describe()
         labels.append(f'op:{desc["op"]}')
+        labels += [f'warm-up:{cr.WARM_UPS[p % 8]}' for p in desc.get('prelude', [])]
         labels.append('pair-exhaustive')
         first_write = next((i for i, p in enumerate(points) if p[0] == 'write'), None)
         for k, _, folder in images:
